@@ -4,7 +4,10 @@ EXTENDS KmerSig, Judge
 
 Expected(r) == SigDefAll(r.seqs, r.k, r.pre)
 
+\* r.must_fail: the sequence is text holding a symbol outside ASCII - not a nucleotide sequence at all; it must be refused (never
+\* silently cleaned up and searched)
 ClSig(r) ==
+  IF r.must_fail THEN << <<"text-outside-ascii-is-refused", \A i \in DOMAIN r.outs : ~r.outs[i].ok>> >> ELSE
   << <<"no-error", \A i \in DOMAIN r.outs : r.outs[i].ok>>,
      <<"smallest-unsigned-dtype", \A i \in DOMAIN r.outs : r.outs[i].ok =>
            (r.outs[i].kind = "u" /\ r.outs[i].width = IndexWidth(r.k))>>,
